@@ -28,7 +28,7 @@ def judge (tags : List String) (impl spec model : List String) (what : String) :
 def site (name : String) (params : List String) (entries : List (List String)) (impl : List String) : Verdict :=
   let es := entries.map kv
   let nd := nodupKeys es
-  let tags := ["site:" ++ name] ++ tagIf (entries.length ≥ 8) "nontrivial" ++ tagIf nd "nodupkeys" ++
+  let tags := ["site:" ++ name] ++ (keysOfCase name).map ("key:" ++ ·) ++ tagIf (entries.length ≥ 8) "nontrivial" ++ tagIf nd "nodupkeys" ++
     tagIf (es.map (·.1) != sortS (es.map (·.1))) "unsorted-iteration"
   if impl.headD "" == "PANIC" then ⟨.tie, tags, "the site case panicked: " ++ " ".intercalate impl⟩ else
   match name with
@@ -122,6 +122,24 @@ def site (name : String) (params : List String) (entries : List (List String)) (
     judge (tags ++ tagIf (impl == ["err"]) "append-duplicate" ++ tagIf (m.isEmpty) "append-to-empty") impl spec model "MutationList.Append"
   | "acralphabet" =>
     judge tags impl (sortS (es.map (·.2)).eraseDups) (acrAlphabet es) "ParsimonyAcr alphabet"
+  | "eems" =>
+    match T.undump (params.headD "") with
+    | none => bad "C18.site-eems dump"
+    | some t =>
+      let len := ((es.headD ("", "")).2).length
+      let charOfAt (j : Nat) (nm : String) : Char := (((es.lookup nm).getD "").toList.drop j).headD '?'
+      let render (r : List (EemKey × Mut)) : List String :=
+        sortS (r.map (fun e => toString e.1.1 ++ "-" ++ e.1.2.1.toString ++ "-" ++ e.1.2.2.toString ++ " " ++ toString e.2.site ++ " " ++
+          toString e.2.branch ++ " " ++ e.2.childName ++ " " ++ toString e.2.numEEM))
+      let model := render (countEEMs charOfAt id len t)
+      -- Spec (no loop over a map): per (site, parent, child) the number of changed branches that reach a tip
+      -- without another change below them; checked through the counts only
+      let counts (l : List String) : List String := l.map (fun x => match x.splitOn " " with
+        | [k, _, _, _, n] => k ++ " " ++ n | _ => x)
+      let tags := tags ++ tagIf (render (countEEMs charOfAt List.reverse len t) == model) "iteration-order-irrelevant" ++
+        tagIf (counts impl == counts model) "counts-agree" ++ tagIf (model.any (fun x => !(x.endsWith " 1"))) "merged-emergences"
+      if model != impl then ⟨.tie, tags, "CountEEMs: the model run on the same tree and sequences gives " ++ showStrList model ++
+        " but the implementation returned " ++ showStrList impl⟩ else ⟨.pass, tags, ""⟩
   | "chardist" =>
     match T.undump (params.headD "") with
     | none => bad "C18.site-chardist dump"
@@ -133,8 +151,15 @@ def site (name : String) (params : List String) (entries : List (List String)) (
           (countMutationsSite charOf ord t).map (fun m => toString j ++ " " ++ m.child ++ " " ++ m.parent.toString ++ " " ++
             m.cur.toString ++ " " ++ toString m.ntips ++ " " ++ toString m.nid)))
       let model := run id
-      judge (tags ++ tagIf (run List.reverse == model) "iteration-order-irrelevant" ++ tagIf (model.length ≥ 8) "many-mutations")
-        impl model model "CountMutations (character distributions)"
+      -- Spec on the leaves (no merged maps): leaves below and leaves below carrying the node's character
+      let spec := sortS ((List.range len).flatMap (fun j =>
+        let charOf (nm : String) : Char := (((es.lookup nm).getD "").toList.drop j).headD '?'
+        let ms : List MutObs := match t with | .node _ _ kids => if kids.length == 1 then [] else specMutNode charOf none t
+        ms.map (fun (m : MutObs) =>
+          toString j ++ " " ++ m.child ++ " " ++ m.parent.toString ++ " " ++ m.cur.toString ++ " " ++ toString m.ntips ++ " " ++ toString m.nid)))
+      judge (tags ++ tagIf (run List.reverse == model) "iteration-order-irrelevant" ++ tagIf (model.length ≥ 8) "many-mutations" ++
+        tagIf (spec == model) "model-meets-leaf-spec")
+        impl spec model "CountMutations (character distributions)"
   | _ => bad ("C18.site: unknown site " ++ name)
 
 def handle (op : String) (f : List String) : Verdict :=
@@ -162,6 +187,22 @@ def handle (op : String) (f : List String) : Verdict :=
         ⟨.tie, tags, "most random templates give the same output for two different seeds (--seed not used?): " ++ " ".intercalate res⟩
       else ⟨.pass, tags, ""⟩
     | none => bad "C18.seeduse field"
+  | "commands", [liveS, pairsS] =>
+    match parseStrList liveS, parseStrList pairsS with
+    | some live, some pairs =>
+      let exercised := pairs.map (fun p => ((p.splitOn "=").drop 1).headD "?")
+      let missing := templateCommands.filter (fun c => !(exercised.contains c))
+      let unlisted := exercised.eraseDups.filter (fun c => !(templateCommands.contains c))
+      let tags := ["commands", "live:" ++ toString live.length, "templates:" ++ toString pairs.length,
+        "commands-with-template:" ++ toString exercised.eraseDups.length] ++ tagIf (live.length ≥ 60) "nontrivial"
+      if live != Gen.C18Sites.commands then
+        ⟨.tie, tags, "the live command tree differs from the regenerated table Gen.C18Sites.commands"⟩
+      else if !missing.isEmpty then
+        ⟨.tie, tags, "commands claimed by Spec.templateCommands for which the harness has no run template: " ++ ", ".intercalate missing⟩
+      else if !unlisted.isEmpty then
+        ⟨.tie, tags, "templates whose command is not listed in Spec.templateCommands: " ++ ", ".intercalate unlisted⟩
+      else ⟨.pass, tags, ""⟩
+    | _, _ => bad "C18.commands fields"
   | "selftest", [gotS] =>
     match unescape gotS with
     | some got =>
